@@ -501,6 +501,47 @@ def check_traversals(ctx):
             fwd_done.add(id(mem.node))
             check_forwarding(ctx, "A", base, mem, None)
 
+    # family fallback slots: the handler name of an abstract family base
+    # (AlgebraicLeaf, Leaf: decorated, no fields of their own, node classes
+    # below them) is what every *user* node type below that base falls back to,
+    # whatever children it has.  A stock traversal that fills such a slot must
+    # do something with the node it is handed: a handler whose result does not
+    # depend on the node at all skips the node and everything below it.
+    nt = model.nodes
+    fam_slots = {}
+    for n in nt.all():
+        if n.decorated and not n.fields and not n.legacy and any(
+                k is not n.cls for k in model.subclasses(n.cls)) and \
+                n.mapper_method:
+            fam_slots[n.mapper_method] = n
+    ctx.floor("family fallback slots", len(fam_slots), 2)
+    seen_fb = set()
+    for mapper in [ident, walk, comb, coll] + sorted(
+            model.subclasses(model.cls(f"{M}:Mapper")), key=lambda c: c.key):
+        for slot, fam in sorted(fam_slots.items()):
+            mem = model.lookup(mapper, slot)
+            if mem is None or (mapper.key, slot) in seen_fb:
+                continue
+            seen_fb.add((mapper.key, slot))
+            if mem.kind != "func":
+                raise AnalysisError(f"{mapper.name}.{slot} is not a function")
+            if is_raising(mem):
+                ctx.ob(f"D4/{mapper.name}/{slot}/family-fallback", True,
+                       where(mem), f"user node types below {fam.name} without "
+                       "a handler of their own are reported by raising",
+                       nontrivial=False)
+                continue
+            sig = signature(mem.node)
+            uses = any(isinstance(x, ast.Name) and x.id == sig.node_name
+                       for st in body_without_docstring(mem.node)
+                       for x in ast.walk(st))
+            ctx.ob(f"D4/{mapper.name}/{slot}/family-fallback", uses, where(mem),
+                   f"{hname(mem)} works on the node it is handed" if uses else
+                   f"{mapper.name}.{slot} resolves to {hname(mem)}, which never "
+                   f"looks at the node: every user node type below {fam.name} "
+                   "that the mapper has no handler for falls back to this slot "
+                   "and is silently skipped together with its children "
+                   "(class Indexed(AlgebraicLeaf) with fields base, position)")
     # Collector leaves return a fresh empty set
     for name in model.own_slots(coll):
         mem = model.lookup(coll, name)
